@@ -2,6 +2,7 @@
 // binary ufunc in both operand orders) and a three-operand broadcast with a scalar (where),
 // because the static size / shape inference of broadcast views depends on the PAIR of kinds.
 //   kb S:<kind of a> S:<kind of b> I:<op>     a from raw int[1][3], b from raw int[4][3]   op 0: add(a,b)  1: add(b,a)  2: multiply(a,b)
+//                                              c from raw int[3][1], d from raw int[1][3]   op 3: add(c,d)  4: add(d,c)  5: multiply(add(c,d),add(d,c))   (<kind of b> may be "same")
 //   kw S:<kind> I:<variant>                   where(cond[3], -1, y[5][3]) / where(cond[3], x[5][3], 7) / where(cond[5][3], x[3], 2)
 // Same output format as c11.cpp (A: = the first operand).  -DKPART / -DNKPART select kinds of the FIRST operand.
 #include "nmtools/array/view/ufuncs/add.hpp"
@@ -71,11 +72,22 @@ template <typename K1, typename K2> static std::string run_bin(K1 k1, K2 k2, int
         case 0: return report(a, view::add(a, b));
         case 1: return report(b, view::add(b, a));
         case 2: return report(a, view::multiply(a, b));
+        default: break;
+    } }
+    // two-sided broadcasting: (3,1) op (1,3) -> (3,3); the result has more elements than either operand
+    int rc[3][1] = {{1}, {2}, {3}};
+    auto c = nm::cast(rc, k1); auto d = nm::cast(ra, k2);
+    if constexpr (meta::is_fail_v<decltype(c)> || meta::is_fail_v<decltype(d)>) return "unsupported"; else {
+    switch (op) {
+        case 3: return report(c, view::add(c, d));
+        case 4: return report(d, view::add(d, c));
+        case 5: return report(c, view::multiply(view::add(c, d), view::add(d, c)));
         default: return "unsupported";
     } }
 }
 // second operand kinds: a representative of every shape-knowledge family
 template <typename K1> static std::string run_bin2(K1 k1, const std::string& k2, int op) {
+    if (k2 == "same") return run_bin(k1, k1, op);
     if (k2 == "fixed") return run_bin(k1, kind::fixed, op);
     if (k2 == "ndarray_fs_db") return run_bin(k1, kind::ndarray_fs_db, op);
     if (k2 == "ndarray_hs_hb") return run_bin(k1, kind::ndarray_hs_hb, op);
